@@ -10,12 +10,12 @@ Local Open Scope out_scope.
 
 (* pub fn read_slice(from, len) *)
 Definition read_slice (s : slice) (n : N) : out (presult slice) :=
-  if s_len s <? n then Err MoreBytesNeeded
+  if s_len_lt s n then Err MoreBytesNeeded
   else '(p, r) <- s_split s n ;; Ok {| remaining := r; parsed := p |}.
 
 (* pub(crate) fn split_at_checked(from, len) *)
 Definition split_at_checked (s : slice) (n : N) : out (slice * slice) :=
-  if s_len s <? n then Err MoreBytesNeeded else s_split s n.
+  if s_len_lt s n then Err MoreBytesNeeded else s_split s n.
 
 (* ---- src/number.rs ---- *)
 
